@@ -328,7 +328,8 @@ func genPath(t *rapid.T, ms []mapping) string {
 	}
 	switch k := rapid.IntRange(0, 11).Draw(t, "pathKind"); {
 	case k >= 10: // shapes the registered regexp mappings are written for (outside the prefix mappings unless one was added there)
-		return rapid.SampledFrom([]string{"/srv/" + genComp().Draw(t, "srv"), "/opt/x", "/opt/y/z", "/data/node_modules/pkg", "/var/r2d2/v10", "/srv/a/node_modules/b7"}).Draw(t, "reShape") + sub + "/" + file
+		return rapid.SampledFrom([]string{"/srv/" + genComp().Draw(t, "srv"), "/opt/x", "/opt/y/z", "/data/node_modules/pkg", "/var/r2d2/v10", "/srv/a/node_modules/b7",
+			"r2d2/v10", "x/node_modules/b7", "./v3", "../lib64"}).Draw(t, "reShape") // relative names too: an expression need not be anchored at the root + sub + "/" + file
 	case k <= 3 && len(bases) > 0:
 		return strings.TrimRight(rapid.SampledFrom(bases).Draw(t, "base"), "/") + sub + "/" + file
 	case k == 4:
